@@ -277,11 +277,170 @@ def check_c12(ck, tier, replay=None):
             q = [(list(it.pc), [z3.Or(o[0] != ys[0], o[n - 1] != ys[n - 1])]) for it, o in res]
             q += [(list(it.pc) + [ys[i] == a * i + b for i in range(n)], [z3.Or([o[i] != ys[i] for i in range(n)])]) for it, o in res]
             agg_prove(ck, 'Table::Smooth(%d) on %d points keeps both end points and leaves straight-line data unchanged' % (k, n), q, TO, found, 'smooth')
+    found_tab = []
+    table_io(ck, tier, found_tab)
+    table_violations(ck, found_tab)
     ck.bounds.update({'linear spline': 'n in {2,3} (thorough 4) symbolic strictly increasing knots, all real ordinates and evaluation points', 'akima/cubic grids': {str(k): [[str(v) for v in g] for g in gs] for k, gs in GRIDS.items()}, 'smooth': 'n<=5 (thorough 6), k<=3'})
     for tag, name, mdl in found:
         rep = common.write_replay('C12', name, {}, {'clause': name, 'model': mdl, 'tag': tag})
         ok, why = native_replay(tag, mdl)
         ck.violation('C12 ' + name.split(' (')[0][:70] if not tag.endswith('periodic') else 'C12 ' + tag, name + ' ; ' + why, rep, reproduced=ok)
+
+# ---------------- Table text reader / writer (point flags survive reading and a write-read round trip) ----------------
+TAB_HARNESS = 'C12_table.cc'
+FLAGSET = (ord('i'), ord('o'), ord('u'))
+def flag_domain(f):
+    # printable, not a separator / comment / xmgrace / line-continuation character (stated bound on the flag byte)
+    return z3.And(f > 32, f < 127, f != ord('#'), f != ord('@'), f != ord('\\'))
+def expect_flag(f):
+    return z3.If(z3.Or([f == c for c in FLAGSET]), f, z3.IntVal(ord('i')))
+
+def tab_native():
+    return common.native_build([common.harness_path(TAB_HARNESS)], 'C12_table_native', extra=['-I' + common.REPO], defs=['VERIF_NATIVE'], cxx=common.CLANG)
+
+def table_io(ck, tier, found_tab):
+    import tabio
+    TO = 60 if tier == 'quick' else 300
+    ir, dt = common.compile_ir(common.harness_path(TAB_HARNESS), extra=['-I' + common.REPO])
+    mod = llir.parse_module(ir); parsed = {}
+    ck.units += ['tools/src/libtools/table.cc (operator>>(istream&, Table&), operator<<(ostream&, const Table&), Table::push_back/resize) with tools/include/votca/tools/tokenizer.h and getline.h']
+    ck.functions.update(common.ir_func_sizes(mod, r'^@h_table|toolsrsERSi|toolslsERSo|Table9push_back'))
+    io = tabio.TextIO(); M = io.models()
+    NR = 2 if tier == 'quick' else 3
+    CAP = 8
+    def run_read(lines, phs, assume):
+        def body(it):
+            io.reset(it, lines, phs)
+            for c in assume: it.assume(c)
+            ins = tabio.make_stream(it, 'istream')
+            xs = alloc_doubles(it, 'xs', [F(0)] * CAP); ys = alloc_doubles(it, 'ys', [F(0)] * CAP); fl = it.alloc(CAP, 'fl')
+            n = symx.sgn64(it.call('@h_table_read', [ins, xs, ys, fl, CAP])); k = max(0, min(n, CAP))
+            return n, read_doubles(it, xs, k), read_doubles(it, ys, k), [it.load(Ptr(fl.obj, i), 1) for i in range(k)]
+        res, st = explore(mod, M, body, parsed=parsed, max_paths=4000, timeout=600); ck.stubs |= st['models_used']
+        return res
+    def bytes_of(txt, fl):
+        # 'F0','F1',.. in the template stand for the symbolic flag bytes
+        out = []; i = 0
+        while i < len(txt):
+            if txt[i] == 'F' and i + 1 < len(txt) and txt[i + 1].isdigit(): out.append(fl[int(txt[i + 1])]); i += 2
+            else: out.append(ord(txt[i])); i += 1
+        return out
+    # encoder validation: concrete tables through the interpreter (float mode) and through the native reader
+    texts = ['0.5 1.25 o\n1 2 u\n1.5 -3 i\n', '# comment\n\n0.5 1.25 0.1 o\n1 2 0.2 x\n', '2\n0 1\n1 2\n', '0 1 i # t\n@ xmgrace\n\t1\t2\tu\n', '1e-3 2.5E2 0.5\n']
+    binp = tab_native(); bad = 0
+    for tx in texts:
+        rc, so, se = common.run_native(binp, tx); t = so.split(); n = int(t[0])
+        nat = (n, [float.fromhex(t[1 + 3 * k]) for k in range(max(0, n))], [float.fromhex(t[2 + 3 * k]) for k in range(max(0, n))], [int(t[3 + 3 * k]) for k in range(max(0, n))])
+        def bodyv(it):
+            io.reset(it, [list(l.encode()) for l in tx.split('\n')[:-1]], [])
+            ins = tabio.make_stream(it, 'istream')
+            xs = alloc_doubles(it, 'xs', [0.0] * CAP); ys = alloc_doubles(it, 'ys', [0.0] * CAP); fl = it.alloc(CAP, 'fl')
+            m = symx.sgn64(it.call('@h_table_read', [ins, xs, ys, fl, CAP])); k = max(0, min(m, CAP))
+            return m, [float(v) for v in read_doubles(it, xs, k)], [float(v) for v in read_doubles(it, ys, k)], [it.load(Ptr(fl.obj, i), 1) & 0xff for i in range(k)]
+        r, _ = explore(mod, M, bodyv, fpmode='float', parsed=parsed)
+        if tuple(r[0][1]) != nat: bad += 1; print('  validation mismatch', repr(tx), r[0][1], nat)
+    ck.add_validation('interpreter + stream models vs native Table reader on %d concrete texts (flags, comments, size header, tabs, exponents)' % len(texts), len(texts), bad == 0, '%d mismatches' % bad)
+    FL = [z3.Int('flag%d' % i) for i in range(NR)]; V = [z3.Real('v%d' % i) for i in range(4 * NR)]
+    dom = [flag_domain(f) for f in FL]
+    def I(v): return v if z3.is_expr(v) else z3.IntVal(v & 0xff if isinstance(v, int) else v)
+    def R(v): return v if z3.is_expr(v) else z3.RealVal(v)
+    layouts = {
+        'three columns (x y flag)': (['$%d $%d F%d' % (3 * k, 3 * k + 1, k) for k in range(NR)], [(3 * k, 3 * k + 1, k) for k in range(NR)]),
+        'four columns (x y yerr flag)': (['$%d $%d $%d F%d' % (4 * k, 4 * k + 1, 4 * k + 2, k) for k in range(NR)], [(4 * k, 4 * k + 1, k) for k in range(NR)]),
+        'two columns (x y)': (['$%d $%d' % (2 * k, 2 * k + 1) for k in range(NR)], [(2 * k, 2 * k + 1, None) for k in range(NR)]),
+        'three numeric columns (x y yerr, no flag)': (['$%d $%d $%d' % (3 * k, 3 * k + 1, 3 * k + 2) for k in range(NR)], [(3 * k, 3 * k + 1, None) for k in range(NR)]),
+        'comment, blank line, tabs and trailing comment': (['# header', ''] + ['\t$%d \t $%d  F%d # c' % (3 * k, 3 * k + 1, k) for k in range(NR)], [(3 * k, 3 * k + 1, k) for k in range(NR)]),
+        'size header line': (['%d' % NR] + ['$%d $%d F%d' % (3 * k, 3 * k + 1, k) for k in range(NR)], [(3 * k, 3 * k + 1, k) for k in range(NR)]),
+    }
+    for lname, (tmpl, rows) in layouts.items():
+        lines = [bytes_of(t, FL) for t in tmpl]
+        res = run_read(lines, V, dom)
+        ck.add_witness('Table reader, %s: %d paths' % (lname, len(res)), len(res) >= 1)
+        q = []
+        for it_, (n, xs, ys, fls) in res:
+            pc = list(it_.pc)
+            if n != len(rows): q.append((pc, [])); continue         # a path that reads a different number of rows must be infeasible
+            goal = []
+            for k, (ix, iy, kf) in enumerate(rows):
+                goal += [R(xs[k]) != V[ix], R(ys[k]) != V[iy], I(fls[k]) != (expect_flag(FL[kf]) if kf is not None else ord('i'))]
+            q.append((pc, [z3.Or(goal)]))
+        st_, mdl = smt.agg_core(ck, 'Table reader, %s: every row keeps x, y and its flag (i/o/u; anything else reads as i), for all flag bytes' % lname, q, TO, probe=[z3.Int('freeflag') != expect_flag(FL[0])] + dom)
+        if st_ == 'sat': found_tab.append(('read', lname, tmpl, mdl))
+    # write -> read round trip through the real operator<< and operator>>
+    for he in (0, 1):
+        WF = [z3.Int('wflag%d' % i) for i in range(NR)]; X = [z3.Real('x%d' % i) for i in range(NR)]; Y = [z3.Real('y%d' % i) for i in range(NR)]; E = [z3.Real('e%d' % i) for i in range(NR)]
+        wdom = [z3.Or(z3.And(f >= 0, f <= 0), z3.And(f >= 32, f < 127, f != ord('#'), f != ord('@'), f != ord('\\'))) for f in WF]
+        def body(it):
+            io.reset(it, [], [])
+            for c in wdom: it.assume(c)
+            outs = tabio.make_stream(it, 'ostream')
+            px = alloc_doubles(it, 'x', X); py = alloc_doubles(it, 'y', Y); pe = alloc_doubles(it, 'e', E); pf = it.alloc(NR, 'fl')
+            for k in range(NR): it.store(Ptr(pf.obj, k), WF[k], 1)
+            it.call('@h_table_write', [outs, px, py, pe, pf, NR, he])
+            text = io.out_lines(); phs = list(io.phs)
+            io.reset(it, text, phs)
+            ins = tabio.make_stream(it, 'istream')
+            xs = alloc_doubles(it, 'xs', [F(0)] * CAP); ys = alloc_doubles(it, 'ys', [F(0)] * CAP); fl = it.alloc(CAP, 'fl')
+            n = symx.sgn64(it.call('@h_table_read', [ins, xs, ys, fl, CAP])); k = max(0, min(n, CAP))
+            return n, read_doubles(it, xs, k), read_doubles(it, ys, k), [it.load(Ptr(fl.obj, i), 1) for i in range(k)], [bytes(b if not is_sym(b) else ord('?') for b in l).decode('latin1') for l in text]
+        res, st = explore(mod, M, body, parsed=parsed, max_paths=6000, timeout=900); ck.stubs |= st['models_used']
+        ck.add_witness('Table write->read round trip (%s): %d paths' % ('with error column' if he else 'no error column', len(res)), len(res) >= 2)
+        q = []
+        for it_, (n, xs, ys, fls, text) in res:
+            pc = list(it_.pc)
+            if n != NR: q.append((pc, [])); continue
+            goal = []
+            for k in range(NR): goal += [R(xs[k]) != X[k], R(ys[k]) != Y[k], I(fls[k]) != expect_flag(WF[k])]
+            q.append((pc, [z3.Or(goal)]))
+        st_, mdl = smt.agg_core(ck, 'Table write->read round trip (%s, %d rows): x, y and the flags i/o/u come back unchanged (blank or other flags read as i), for all flag bytes and values' % ('with error column' if he else 'no error column', NR), q, TO, probe=[z3.Int('freeflag') != expect_flag(WF[0])] + wdom)
+        if st_ == 'sat': found_tab.append(('roundtrip', he, NR, mdl))
+    ck.bounds['table text'] = '%d data rows per layout; 6 line layouts (2/3/4 columns, comments, blank lines, tabs, size header); flag bytes symbolic over printable ASCII except # @ \\ ; numeric fields are arbitrary reals (placeholder tokens through strtod)' % NR
+    ck.assumptions += ['Table text I/O: std::getline, strtod and ostream insertion are environment models (engine/tabio.py): a numeric field converts to the real it denotes and prints as a token that converts back to the same real, i.e. the 10-digit output precision is outside the claim',
+                       'file opening (Table::Load/Save) is outside the claim; the stream operators they call are the code checked']
+
+def table_violations(ck, found_tab):
+    for f in found_tab:
+        if f[0] == 'read':
+            _, lname, tmpl, mdl = f; mdl = mdl or {}
+            text = []
+            for t in tmpl:
+                ln = t
+                for k in range(9): ln = ln.replace('F%d' % k, chr(int(mdl.get('flag%d' % k, ord('o')))))
+                i = 0
+                import re as _re
+                ln = _re.sub(r'\$(\d+)', lambda m: '%d.5' % (int(m.group(1)) + 1), ln)
+                text.append(ln)
+            meta = {'kind': 'table-read', 'layout': lname, 'text': '\n'.join(text) + '\n', 'flags': [int(mdl.get('flag%d' % k, ord('o'))) for k in range(9)]}
+            rep = common.write_replay('C12', 'table read ' + lname, {'input.tab': meta['text']}, meta)
+            ok, why = replay_table(meta)
+            ck.violation('C12 Table reader ' + lname, 'Table reader, %s: a row loses its x, y or flag; %s' % (lname, why), rep, reproduced=ok)
+        else:
+            _, he, nr, mdl = f; mdl = mdl or {}
+            meta = {'kind': 'table-roundtrip', 'has_yerr': he, 'rows': [[k + 0.5, 2.0 * k + 0.25, 0.125, int(mdl.get('wflag%d' % k, ord('o')))] for k in range(nr)]}
+            rep = common.write_replay('C12', 'table roundtrip %d' % he, {}, meta)
+            ok, why = replay_table(meta)
+            ck.violation('C12 Table round trip ' + ('with error column' if he else 'no error column'), 'Table written and read back (%s): x, y or a flag changes; %s' % ('with error column' if he else 'no error column', why), rep, reproduced=ok)
+
+def replay_table(meta):
+    binp = tab_native()
+    if meta['kind'] == 'table-read':
+        rc, so, se = common.run_native(binp, meta['text'])
+        t = so.split(); n = int(t[0]) if t else -9
+        rows = [(float.fromhex(t[1 + 3 * k]), float.fromhex(t[2 + 3 * k]), int(t[3 + 3 * k])) for k in range(max(0, n))]
+        # expected: data lines of the text, in order
+        exp = []
+        for ln in meta['text'].split('\n'):
+            ln = ln.split('#')[0].split('@')[0]; tk = ln.split()
+            if len(tk) < 2: continue
+            fl = ord(tk[-1]) if len(tk) > 2 and tk[-1] in ('i', 'o', 'u') else ord('i')
+            exp.append((float(tk[0]), float(tk[1]), fl))
+        return rows != exp, 'native reader returned %s, the text holds %s' % (rows, exp)
+    rows = meta['rows']; inp = '%d %d\n' % (meta['has_yerr'], len(rows)) + '\n'.join('%s %s %s %d' % (float(a).hex(), float(b).hex(), float(c).hex(), f) for a, b, c, f in rows) + '\n'
+    rc, so, se = common.run_native(binp, inp, args=['roundtrip'])
+    t = so.split(); n = int(t[0]) if t else -9
+    got = [(float.fromhex(t[1 + 3 * k]), float.fromhex(t[2 + 3 * k]), int(t[3 + 3 * k])) for k in range(max(0, n))]
+    exp = [(a, b, f if f in FLAGSET else ord('i')) for a, b, c, f in rows]
+    return got != exp, 'native write->read returned %s for %s' % (got, exp)
 
 def native_replay(tag, mdl):
     """periodic clauses: run the real spline on a full period of data and compare the end slopes"""
